@@ -15,7 +15,7 @@ from ..sched import Deadlock, HarnessTimeout, Scheduler, StepLimit, installed
 from ..world import World, global_state_guard
 from .c14 import NTYPES, SimRaise, _handler
 
-SCENARIOS = ["ctx", "inherit", "register", "eval"]
+SCENARIOS = ["ctx", "inherit", "register", "eval", "switchctx"]
 
 
 class ThreadScript:
@@ -219,6 +219,14 @@ class C15(Property):
                 ops.append({"op": "evaluate", "node": rng.choice(spec["roots"]), "o": copy.deepcopy(o)})
             per[f"T{i}"] = ops
         case["spec"], case["ops_by_thread"] = spec, per
+
+    def _gen_switchctx(self, rng, case):
+        self._gen_eval(rng, case)
+        for n in case["spec"]["nodes"]:
+            if n["k"] == "dataset":
+                n["cache"] = "recording"
+        # per thread and op: evaluate inside labrea.cache.disabled() / labrea.logging.disabled() or plainly
+        case["ctx_by_thread"] = {tid: [rng.choice(["plain", "cache", "cache", "logging", "both"]) for _ in ops] for tid, ops in case["ops_by_thread"].items()}
 
     # ------------------------------------------------------------------ execution
     def run_case(self, case):
@@ -460,6 +468,77 @@ class C15(Property):
 
         return finish
 
+    # -- scenario: switchctx (labrea's own derived runtimes are thread-local too) ---------------------
+    def _run_switchctx(self, case, res, sched):
+        import contextlib
+
+        import labrea.cache
+        import labrea.logging
+
+        spec = case["spec"]
+        w = World(spec)
+        w.by_thread = {}
+        expected = {(tid, j): World(spec, record=False).do(op) for tid, ops in case["ops_by_thread"].items() for j, op in enumerate(ops)}
+        ctx = w.active()
+        ctx.__enter__()
+        windows = []  # (thread, backend calls of that thread before, after) for ops run with caching disabled
+
+        def backend_calls(tid):
+            return sum(c for (t, kind, _), c in w.by_thread.items() if t == tid and kind == "backend")
+
+        for tid, ops in case["ops_by_thread"].items():
+            def body(tid=tid, ops=ops):
+                for j, op in enumerate(ops):
+                    sched.yield_point("op")
+                    mode = case["ctx_by_thread"][tid][j]
+                    with contextlib.ExitStack() as st:
+                        if mode in ("cache", "both"):
+                            st.enter_context(labrea.cache.disabled())
+                        if mode in ("logging", "both"):
+                            st.enter_context(labrea.logging.disabled())
+                        before = backend_calls(tid)
+                        out = w._eval_op("evaluate", op)
+                        after = backend_calls(tid)
+                    res.bump("concurrent_evaluations")
+                    if mode in ("cache", "both"):
+                        res.bump("evaluations_with_cache_disabled_in_one_thread")
+                        if after != before:
+                            res.violate("cache-used-inside-this-threads-disabled-block", thread=tid, op_index=j, node=op["node"], o=op["o"], backend_calls=after - before)
+                            return
+                    if not out.same(expected[(tid, j)]):
+                        res.violate("evaluation-returned-value-of-other-options", thread=tid, op_index=j, node=op["node"], o=op["o"], got=out.brief(), cold=expected[(tid, j)].brief(), mode=mode)
+                        return
+
+            sched.spawn(tid, body)
+
+        def alone(tid):
+            """Body runs of this thread's script executed alone, sequentially, on a fresh world."""
+            a = World(spec, record=False)
+            with a.active():
+                for j, op in enumerate(case["ops_by_thread"][tid]):
+                    mode = case["ctx_by_thread"][tid][j]
+                    with contextlib.ExitStack() as st:
+                        if mode in ("cache", "both"):
+                            st.enter_context(labrea.cache.disabled())
+                        if mode in ("logging", "both"):
+                            st.enter_context(labrea.logging.disabled())
+                        a._eval_op("evaluate", op)
+            return a.count("body")
+
+        def finish():
+            ctx.__exit__(None, None, None)
+            # other threads can only ADD cache entries: a thread never runs more bodies than when its script runs alone
+            # (it would if another thread's cache.disabled() block leaked into it)
+            for tid in case["ops_by_thread"]:
+                mine = sum(c for (t, kind, _), c in w.by_thread.items() if t == tid and kind == "body")
+                bound = alone(tid)
+                res.bump("thread_body_bounds_checked")
+                if mine > bound:
+                    res.violate("thread-recomputed-more-than-alone", thread=tid, body_runs=mine, alone=bound, modes=case["ctx_by_thread"][tid])
+                    return
+
+        return finish
+
     # ------------------------------------------------------------------ shrinking
     def shrink_candidates(self, case):
         # 1. pin the realised schedule
@@ -496,11 +575,15 @@ class C15(Property):
                     yield dict(case, evals=case["evals"][:i] + case["evals"][i + 1:])
             if case["n_datasets"] > 1:
                 yield dict(case, n_datasets=1)
-        elif sc == "eval":
+        elif sc in ("eval", "switchctx"):
             for tid, ops in case["ops_by_thread"].items():
                 for i in range(len(ops)):
                     if len(ops) > 1:
-                        yield dict(case, ops_by_thread={**case["ops_by_thread"], tid: ops[:i] + ops[i + 1:]})
+                        c = dict(case, ops_by_thread={**case["ops_by_thread"], tid: ops[:i] + ops[i + 1:]})
+                        if "ctx_by_thread" in case:
+                            m = case["ctx_by_thread"][tid]
+                            c["ctx_by_thread"] = {**case["ctx_by_thread"], tid: m[:i] + m[i + 1:]}
+                        yield c
 
 
 def _tree_variants(ops):
